@@ -113,3 +113,13 @@ func trT0x0102(b []byte) (out []byte, err error) {
 	}
 	return
 }
+
+func rtP0x8800(x *P0x8800) (y P0x8800, err error) { err = y.Parse(verifMsg(x.Encode())); return }
+
+func trP0x8800(b []byte) (out []byte, err error) {
+	var y P0x8800
+	if err = y.Parse(verifMsg(b)); err == nil {
+		out = y.Encode()
+	}
+	return
+}
